@@ -42,6 +42,7 @@ DOM = {
 	"sets": [{1, 2}, {2, 1}, {3}, frozenset({1, 5}), {"a", 1}, {(1, 2), (2, 1)}],      # freshness only (sets are unhashable: no sensitivity demand)
 	"dicts": [{"a": 1, "b": 2}, {"b": 2, "a": 1}, {"a": 1, "b": 3}, {}, {"a": [1, 2]}, {1: "x", "y": None}],      # freshness against an equal dict built in another order
 	"setsum": [{1, 2}, {0, 3}, {1, 4}, {2, 3}, {0, 5}],      # sets of one size whose member hashes have one sum
+	"lookalike": [[1, 2], (1, 2), {1, 2}, [1], (1,), {1}, [], (), [2, 1], (2, 1), {frozenset({0}), frozenset({14})}, [(1, 2)], ([1, 2],)],   # a list is not the tuple / set of its items
 	"nested": [[1, 2], [1], (3, [4]), {"k": 1}, [1, 2], (3.0, float("nan")), [float("nan")], (1, (2.5, float("nan")))],
 }
 
@@ -55,7 +56,7 @@ def _hkey(x):
 		return None if any(k is None for k in ks) else ("set", tuple(sorted(map(repr, ks))))
 	if isinstance(x, (list, tuple)):
 		ks = [_hkey(e) for e in x]
-		return None if any(k is None for k in ks) else ("seq", len(x), tuple(ks))
+		return None if any(k is None for k in ks) else ("tuple" if isinstance(x, tuple) else "list", len(x), tuple(ks))
 	if isinstance(x, Vector):
 		return None
 	if isinstance(x, dict):
@@ -81,7 +82,7 @@ def hdistinct(a, b):
 		return (hash(a) - hash(b)) % P != 0
 	except Exception:
 		pass
-	if type(a) is not type(b) and not (isinstance(a, (list, tuple)) and isinstance(b, (list, tuple))):
+	if type(a) is not type(b) and not (isinstance(a, (list, tuple, set)) and isinstance(b, (list, tuple, set))):
 		return False
 	ka, kb = _hkey(a), _hkey(b)
 	return ka is not None and kb is not None and ka != kb
@@ -456,6 +457,54 @@ def run_nested(chk, spec):
 
 RUNNERS["nested"] = run_nested
 
+# multipliers a polynomial / rolling hash is likely to use (the library's own, when it names one, first)
+def _multipliers():
+	ks = [getattr(Vector, "_FP_B", None), 31, 33, 37, 131, 257, 65599, 1000003, 16777619, 1315423911, (1 << 61) - 1, 1 << 32]
+	return [k for k in dict.fromkeys(ks) if isinstance(k, int) and k > 1]
+
+
+def run_linear(chk, spec):
+	"""ONE write that changes two cells by amounts that cancel in a hash that is linear in the element hashes (small ints hash to themselves):
+	[a, b] -> [a + d, b - d*K] through a slice / index-list write on a vector, a row write across two columns of a table, and the two
+	single-cell writes one after the other.  Every one of them changes elements to unequal values, so the fingerprint has to move."""
+	a, b, d, K = spec["a"], spec["b"], spec["d"], spec["K"]
+	pad = list(spec["pad"])
+	pos = spec["pos"]            # where the two cells sit: "adjacent-first", "adjacent-last", "apart"
+	n = len(pad) + 2
+	i, j = {"adjacent-first": (0, 1), "adjacent-last": (n - 2, n - 1), "apart": (0, n - 1)}[pos]
+	gap = j - i
+	new_a, new_b = a + d, b - d * K ** gap
+	vals = list(pad)
+	vals.insert(i, a)
+	vals.insert(j, b)
+	chk.judged("sensitivity", ("linear", spec["via"], pos, K, d, n))
+	if spec["via"] in ("slice", "index-list"):
+		v = Vector(list(vals))
+		f0 = fp(v)
+		if spec["via"] == "slice" and gap == 1:
+			w = call(v.__setitem__, slice(i, j + 1), [new_a, new_b])
+		else:
+			w = call(v.__setitem__, [i, j], [new_a, new_b])
+		f1 = fp(v)
+		what = f"Vector({vals!r}) after one write of [{new_a}, {new_b}] over positions {i}, {j}"
+	elif spec["via"] == "table-row":
+		# the two cells are one row of two columns: the table's fingerprint combines the column fingerprints
+		t = Table({"x": [a] + pad, "y": [b] + pad})
+		f0 = fp(t)
+		w = call(t.__setitem__, (0, slice(None)), [a + d, b - d * K])
+		f1 = fp(t)
+		what = f"Table(x={[a] + pad!r}, y={[b] + pad!r}) after t[0, :] = [{a + d}, {b - d * K}]"
+	else:
+		raise ValueError(spec["via"])
+	if not (f0.ok and f1.ok and w.ok):
+		chk.skip("linear-write-refused")
+		return
+	if f0.value == f1.value:
+		chk.fail("a write that changes elements to unequal values changes the fingerprint", f"fingerprint/insensitive/cancelling-write/{spec['via']}", f"{spec!r}: {what}: fingerprint still {f0.value}")
+
+
+RUNNERS["linear"] = run_linear
+
 
 def setup(chk):
 	pool.CENSUS.install()
@@ -464,6 +513,13 @@ def setup(chk):
 def run(chk):
 	recompute.add_cases(chk, "C16")
 	rng = chk.rng
+	for K in _multipliers():
+		for via in ("slice", "index-list", "table-row"):
+			for pos in ("adjacent-first", "adjacent-last", "apart"):
+				for d in (1, -1, 2, 7):
+					if via == "table-row" and pos != "adjacent-first":
+						continue
+					chk.case("linear", {"a": rng.choice([1, 5, 40]), "b": rng.choice([2, 9, 1700000000]), "d": d, "K": K, "pad": [rng.randrange(10) for _ in range(rng.choice([0, 1, 3]))], "pos": pos, "via": via}, "linear")
 	reps = 2 if chk.quick() else 8
 	idx = 0
 	for kind in DOM:
